@@ -193,4 +193,17 @@ theorem checked_refines_event (x : Ext) (source : Str) (id : Int) (fields : List
       (∀ nm k, err = some (nm, k) → nm ∈ (S.scan x (eventOfFields source id fields) rules).named) :=
   checked_refines x _ (fieldsWfB_sound source id fields hf) rules e hw h
 
+/-- the closed form: the engine is whatever `Engine::try_from` builds from a compiler in a reachable state
+    (`C14.RInv`: the empty compiler after any sequence of template loads, rule loads and compile calls —
+    `C14.run_inv`); its well-formedness is `C06.ofCompiler_wf`, not an assumption -/
+theorem checked_refines_compiler (x : Ext) (c : Compiler) (hi : C14.RInv x c) (e : Engine)
+    (he : Engine.ofCompiler x c = .ok e)
+    (source : Str) (id : Int) (fields : List (List Str × FieldValue)) (hf : fieldsWfB fields = true)
+    (rules : List S.SRule) (h : rulesRelB x (eventOfFields source id fields) rules e.rules = true) :
+    ∃ k sr err, Engine.scan x e (eventOfFields source id fields) = ({ e with rulesCache := k }, .done sr err) ∧
+      SrEq sr (S.scan x (eventOfFields source id fields) rules).result ∧
+      (err.isSome = true ↔ (S.scan x (eventOfFields source id fields) rules).failing ≠ []) ∧
+      (∀ nm kd, err = some (nm, kd) → nm ∈ (S.scan x (eventOfFields source id fields) rules).named) :=
+  checked_refines_event x source id fields hf rules e (C06.ofCompiler_wf x c hi e he).1 h
+
 end Gene.Props.Refine
